@@ -315,10 +315,11 @@ def _run_inputs(args) -> list[dict]:
 def run(ctx: Ctx) -> int:
 	quick = ctx.quick
 	coded = tlc.run('MCErrFlow', 'ErrFlow_coded.cfg', workers=4, timeout=300)
+	pinned = tlc.run('MCErrFlow', 'ErrFlow_pinned.cfg', workers=4, timeout=300)
 	sound = tlc.run('MCErrFlow', 'ErrFlow_sound.cfg', workers=4, timeout=300)
 	if not sound.ok:
 		raise Machinery(f'ErrFlow with all stages wrapped violates a clause: {sound.out[-800:]}')
-	ctx.log(f'TLC: all-wrapped {sound.distinct} states OK; as coded {coded.distinct} states, design-level violation: {coded.invariant_violated + coded.action_property_violated}')
+	ctx.log(f'TLC: all-wrapped {sound.distinct} states OK; as coded {coded.distinct} states, violated: {coded.invariant_violated + coded.action_property_violated or "nothing"}; wrapper table of the pinned commit: {pinned.invariant_violated + pinned.action_property_violated}')
 	mres = tlc.run('ErrFlowMut', 'ErrFlowMut.cfg', workers=1, timeout=300)
 	descs = [json.loads(line) for line in mres.lines('MUT ')]
 	rnd = random.Random(ctx.seed)
